@@ -1,5 +1,6 @@
 import GqlVerif.Props.C03
 import GqlVerif.Props.C16
+import GqlVerif.Proofs.C01Layers
 /-!
 # C01 — every spec-conforming response deserializes losslessly into ResponseData
 
@@ -13,11 +14,24 @@ Layer 1 (leaf positions at every modifier depth), proved here for all type expre
 * `int_roundtrip_leaf`, `string_roundtrip_leaf`, `id_canonical_leaf` — what is read is written back
   unchanged, except that an integer ID comes back as its decimal string (the difference the property allows).
 
-The struct / tagged-enum / flatten layers are in `GqlVerif/Proofs/C01Layers.lean` when proved; until
-merged they are covered by the correspondence (serde model = compiled code on every payload) and by
-the property oracle on the implementation (conforming payload ⇒ accepted and preserved).
-Known findings (overlapping response keys; fragments on abstract types under object parents) are
-exercised by the harness on fixed witnesses.
+Layers 2–5 are proved in `GqlVerif/Proofs/C01Layers.lean` (same namespace; audited with this file):
+
+* L1 `leaf_roundtrip`, `leaf_lossless`, `*_position_rt`, `id_field_roundtrip` — at every type expression:
+  what is read is written back as `canon leafCanon t j` (identity at the leaves except integer ID →
+  decimal string);
+* L2 `struct_accepts`, `struct_roundtrip`, `struct_roundtrip_lookup`, `struct_roundtrip_keys`,
+  `unknown_keys_ignored`, `struct_position_roundtrip` — plain structs, nested objects and lists of
+  objects along a selection tree (`__typename` and unselected keys are dropped, nothing else);
+* L3 `tagged_read`, `tagged_roundtrip` — `__typename`-tagged enums;
+* L4 `flatten_eq`, `flatten_take_roundtrip`, `flatten_roundtrip` — one flattened fragment struct with
+  keys disjoint from the own fields' keys;
+* `overlap_loses_key`, `overlap_loses_key_silently`, `disjoint_control` — the known finding
+  `C01-overlap` as theorems about the model (and the disjointness hypothesis is exactly what L4 needs).
+
+What is still covered by the correspondence only: several flattened members at once, `Box`ed flatten
+members (recursive fragments), and the composition of all layers along an arbitrary generated module
+(the theorems compose, as the `demoEnv` example shows, but there is no single end-to-end statement
+over `Codegen.generate` yet).
 -/
 namespace GqlVerif
 namespace C01
